@@ -20,7 +20,7 @@ RULE = ('case = one generated FGG spec with finite Z (non-recursive, linear, non
         'values and gradients compared to the reference, plus Bool/Viterbi cross-relations; interpreter-level cases run a batch of specs under '
         'python, -O and -OO subprocesses and through bin/sum_product.py -OO. evaluations = configurations compared; non-trivial = recursive spec '
         'or spec with a >= 3-edge rule; distinct = spec hashes')
-ASSUMPTIONS = ['specs conditioned to spectral radius <= 0.9; float64 runs use tol=1e-12 and are compared with rtol 1e-7 (values) / 1e-5 (gradients); float32 runs use tol=1e-5 and rtol 5e-3 / 3e-2',
+ASSUMPTIONS = ['specs conditioned to spectral radius <= 0.9; float64 runs use tol=1e-14 and are compared with rtol 1e-7 (values) / 1e-5 (gradients); float32 runs use tol=1e-5 and rtol 5e-3 / 3e-2',
                'interpreter levels must agree to 1e-12 relative (same arithmetic, assertions are checks only)',
                'bin/sum_product.py is run with -d -l 1e-12 -k 10000 and compared with rtol 2e-10 (float64 accuracy: a silent float32 computation must not pass)']
 CLASSES = ('nonrec', 'linear', 'nonlinear', 'mixed')
@@ -61,7 +61,7 @@ def run_config(fggs, spec, S, method, jpre, dtype, grad, cot, zmask=None):
     import torch
     fgg, info = G.build_fgg(fggs, spec, S, dtype, requires_grad=grad)
     sr = G.make_semiring(fggs, S, dtype)
-    tol = 1e-12 if dtype == torch.float64 else 1e-5
+    tol = 1e-14 if dtype == torch.float64 else 1e-5
 
     def run():
         z = fggs.sum_product(fgg, method=method, semiring=sr, tol=tol, kmax=10000, j_precompute=jpre).to_dense()
@@ -151,7 +151,9 @@ def check_spec(spec, meta, index):
         zl = results.get(('log', 'fixed-point', False, True))
         if zr is not None and zl is not None:
             obs['cross_semiring_checks'] += 1
-            msg = C.close_tensor(zl, zr.log(), 'float64', rtol=1e-7, atol=1e-8)
+            # compared in the real domain: the Real iteration stops on an *absolute* change, so log(Z) of a tiny Z
+            # is only as accurate as that absolute error allows
+            msg = C.close_tensor(zl.exp(), zr, 'float64', rtol=1e-7, atol=1e-9)
             if msg:
                 viols.append(C.viol('cross:log-vs-log-of-real', msg))
             for S2 in ('bool', 'viterbi'):
